@@ -18,3 +18,23 @@ import (
 func (s *Service) VerifBuildDLQ(ctx context.Context, pl *pipeline.Instance, sourceID string, logger log.CtxLogger) (*funnel.DLQ, error) {
 	return s.buildDLQ(ctx, pl, sourceID, logger)
 }
+
+// VerifBuildTrees runs the real buildRunnablePipeline on pl and returns, for
+// every worker it built (one per source connector, in order), the root of the
+// task tree that worker executes (worker.FirstTask). Nothing is started.
+func (s *Service) VerifBuildTrees(ctx context.Context, pl *pipeline.Instance) ([]*funnel.TaskNode, error) {
+	rp, err := s.buildRunnablePipeline(ctx, pl)
+	if err != nil {
+		return nil, err
+	}
+	roots := make([]*funnel.TaskNode, len(rp.workers))
+	for i, w := range rp.workers {
+		roots[i] = w.FirstTask
+	}
+	return roots, nil
+}
+
+// VerifBuildSharedTail wraps buildSharedTail (the receiver is not used by it).
+func VerifBuildSharedTail(procTasks []funnel.Task, destTasks [][]funnel.Task) ([]*funnel.TaskNode, error) {
+	return (&Service{}).buildSharedTail(procTasks, destTasks)
+}
